@@ -34,7 +34,7 @@ BUDGET = {'quick': dict(examples=2400, shards=16, seconds=80),
 TYPES = ['string', 'integer', 'number', 'boolean', 'date', 'datetime', 'time', 'year', 'array', 'object']
 # the permutation walk visits every entry once per cycle: repeated entries weight the type-producing steps
 KINDS = [k for k in gp.ALL_KINDS if k not in gp.USER_KINDS] + ['join'] * 8 + ['concatenate'] * 3 + ['unpivot'] * 2 + \
-    ['add_computed'] * 2 + ['set_type'] * 2 + ['iterable', 'load_csv', 'duplicate']
+    ['add_computed'] * 2 + ['set_type'] * 2 + ['iterable', 'load_csv', 'duplicate', 'checkpoint', 'load_csv']
 SHAPING = {'add_field', 'add_computed', 'set_type', 'unpivot', 'concatenate', 'duplicate', 'join', 'rename_fields',
            'select_fields', 'delete_fields', 'delete_resource', 'iterable', 'sources', 'load_csv', 'set_pk_dedupe'}
 
@@ -60,6 +60,12 @@ def cases_(draw):
     else:
         pkg = draw(gp.input_package(2, 3, types=TYPES))
         prog = draw(gp.programs(1, 6, kinds=KINDS, pkg=pkg, favour_mutators=False))
+    # temporal values with a sub-second part (they survive every step, a checkpoint round trip included)
+    for r in prog['pkg']:
+        for row in r['rows']:
+            for k, v in list(row.items()):
+                if isinstance(v, (datetime.datetime, datetime.time)) and draw(st.booleans()):
+                    row[k] = v.replace(microsecond=draw(st.sampled_from([1, 500000, 999999])))
     return {'pkg': prog['pkg'], 'steps': prog['steps']}
 
 
@@ -79,51 +85,64 @@ def check(case, ctx):
             classes.append('join:' + s['mode'])
         if s['k'] == 'add_computed':
             classes.append('computed:' + s['operation'])
+    def one_run(env, attempt):
+        try:
+            with quiet():
+                ds = Flow(*[gp.build(s, env) for s in specs]).datastream(feed(desc0, tables0))
+                desc, rows, _ = materialise(ds)
+        except Exception as e:
+            why = gp.data_dependent_rejection(e)
+            if why:
+                return Info(rejected=True, classes=classes + ['rejected:' + why])
+            raise unexpected(e, '/'.join(prog))
+        names = [r['name'] for r in desc['resources']]
+        if len(rows) != len(names):
+            raise Violation('streams-vs-descriptors', {'streams': len(rows), 'resources': names, 'program': prog})
+        if len(set(names)) != len(names):
+            raise Violation('duplicate-resource-names', {'resources': names, 'program': prog})
+        for rd, table in zip(desc['resources'], rows):
+            schema = tableschema.Schema(rd['schema'])
+            fields = {f.name: f for f in schema.fields}
+            for i, row in enumerate(table):
+                extra = [k for k in row if k not in fields]
+                if extra:
+                    raise Violation('row-has-undeclared-field', {'resource': rd['name'], 'fields': extra, 'program': prog})
+                for k, v in row.items():
+                    if v is None:
+                        continue
+                    try:
+                        fields[k].cast_value(v)
+                    except tableschema.exceptions.CastError:
+                        last = next((s for s in reversed(specs) if s['k'] in SHAPING), {'k': '?'})
+                        sig = 'value-invalid-for-declared-type:%s' % fields[k].type
+                        if k.startswith('jf'):
+                            j = next(s for s in specs if s['k'] == 'join' and k in s['fields'])
+                            sig += ':join-' + j['fields'][k]['aggregate']
+                        elif k.startswith('cf'):
+                            c = next(s for s in specs if s['k'] == 'add_computed' and s['target'] == k)
+                            sig += ':computed-' + c['operation']
+                        raise Violation(sig, {'resource': rd['name'], 'field': k, 'type': fields[k].type,
+                                              'value': v, 'python_type': type(v).__name__, 'program': prog})
+        try:
+            valid = datapackage.Package(copy.deepcopy(desc)).valid
+        except Exception as e:
+            valid = False
+        if not valid:
+            errs = [str(e)[:200] for e in datapackage.Package(copy.deepcopy(desc)).errors][:3]
+            raise Violation('descriptor-not-a-valid-data-package', {'errors': errs, 'program': prog})
+        return None
     env = gp.Env(ctx, 'a')
-    try:
-        with quiet():
-            ds = Flow(*[gp.build(s, env) for s in specs]).datastream(feed(desc0, tables0))
-            desc, rows, _ = materialise(ds)
-    except Exception as e:
-        why = gp.data_dependent_rejection(e)
-        if why:
-            return Info(rejected=True, classes=classes + ['rejected:' + why])
-        raise unexpected(e, '/'.join(prog))
-    names = [r['name'] for r in desc['resources']]
-    if len(rows) != len(names):
-        raise Violation('streams-vs-descriptors', {'streams': len(rows), 'resources': names, 'program': prog})
-    if len(set(names)) != len(names):
-        raise Violation('duplicate-resource-names', {'resources': names, 'program': prog})
-    for rd, table in zip(desc['resources'], rows):
-        schema = tableschema.Schema(rd['schema'])
-        fields = {f.name: f for f in schema.fields}
-        for i, row in enumerate(table):
-            extra = [k for k in row if k not in fields]
-            if extra:
-                raise Violation('row-has-undeclared-field', {'resource': rd['name'], 'fields': extra, 'program': prog})
-            for k, v in row.items():
-                if v is None:
-                    continue
-                try:
-                    fields[k].cast_value(v)
-                except tableschema.exceptions.CastError:
-                    last = next((s for s in reversed(specs) if s['k'] in SHAPING), {'k': '?'})
-                    sig = 'value-invalid-for-declared-type:%s' % fields[k].type
-                    if k.startswith('jf'):
-                        j = next(s for s in specs if s['k'] == 'join' and k in s['fields'])
-                        sig += ':join-' + j['fields'][k]['aggregate']
-                    elif k.startswith('cf'):
-                        c = next(s for s in specs if s['k'] == 'add_computed' and s['target'] == k)
-                        sig += ':computed-' + c['operation']
-                    raise Violation(sig, {'resource': rd['name'], 'field': k, 'type': fields[k].type,
-                                          'value': v, 'python_type': type(v).__name__, 'program': prog})
-    try:
-        valid = datapackage.Package(copy.deepcopy(desc)).valid
-    except Exception as e:
-        valid = False
-    if not valid:
-        errs = [str(e)[:200] for e in datapackage.Package(copy.deepcopy(desc)).errors][:3]
-        raise Violation('descriptor-not-a-valid-data-package', {'errors': errs, 'program': prog})
+    r = one_run(env, 1)
+    if r is not None:
+        return r
+    if any(s_['k'] == 'checkpoint' for s_ in specs):
+        # the same pipeline run again picks its checkpoint up: what it emits then is held to the same standard
+        env.n = 0
+        env.captures = {}
+        classes.append('second-run-resumes-from-a-checkpoint')
+        r = one_run(env, 2)
+        if r is not None:
+            return r
     # consequently results() (which validates every row against the final schema) must not fail
     env = gp.Env(ctx, 'r')
     try:
